@@ -22,7 +22,9 @@ BITS = {0: "correspondence: model output differs from implementation output",
            "or an exception other than the all-unknown ValueError",
         3: "prosodic_string / sonority / prosodic_weights: not one element per token, or an exception",
         4: "class2tokens: removing the gaps does not give back the tokens, or the gap pattern differs from "
-           "the class string"}
+           "the class string",
+        5: "an argument list was modified by the call (the caller's list differs from the copy taken before), or a "
+           "second call on the same list object returned something else"}
 
 ERR = {IndexError: "IndexErr", ValueError: "ValueErr", KeyError: "KeyErr"}
 
@@ -179,34 +181,43 @@ def run_impl(case):
         return {"outs": outs}
     if kind == "t2c":
         model = _model(case)
+        arg = list(case["toks"])            # ONE list object for all calls; compared with the case afterwards
         single = [guarded(lambda t=t: str(sc.token2class(t, model, cldf=case["cldf"]))) for t in case["toks"]]
-        out = guarded(lambda: [str(c) for c in sc.tokens2class(list(case["toks"]), model, cldf=case["cldf"])])
-        return {"single": single, "out": out}
+        out = guarded(lambda: [str(c) for c in sc.tokens2class(arg, model, cldf=case["cldf"])])
+        return {"single": single, "out": out, "after": [str(t) for t in arg]}
     if kind == "pros":
-        out = guarded(lambda: str(sc.prosodic_string(list(case["l"]), _output=MODES[case["mode"]])))
+        arg = list(case["l"])
+        out = guarded(lambda: str(sc.prosodic_string(arg, _output=MODES[case["mode"]])))
         weights = None
         if out[0] == "ok":
             user = {k: float(Fraction(v)) for k, v in (case["user"] or {}).items()}
             weights = guarded(lambda: [_frac(x) for x in sc.prosodic_weights(out[1], _transform=user)])
-        return {"out": out, "weights": weights}
+        return {"out": out, "weights": weights, "after": [int(x) for x in arg]}
     if kind == "prostok":
         art = _state["models"][case["art"]]
         saved = rcParams["art"]
         rcParams["art"] = art
+        arg = list(case["toks"])
         try:
-            cls = guarded(lambda: [str(c) for c in sc.tokens2class(list(case["toks"]), art, cldf=False)])
-            son = guarded(lambda: [int(t) for t in sc.tokens2class(list(case["toks"]), rcParams["art"], cldf=False)])
-            out = guarded(lambda: str(sc.prosodic_string(list(case["toks"]))))
+            cls = guarded(lambda: [str(c) for c in sc.tokens2class(arg, art, cldf=False)])
+            son = guarded(lambda: [int(t) for t in sc.tokens2class(arg, rcParams["art"], cldf=False)])
+            out = guarded(lambda: str(sc.prosodic_string(arg)))
         finally:
             rcParams["art"] = saved
-        return {"cls": cls, "son": son, "out": out}
+        return {"cls": cls, "son": son, "out": out, "after": [str(t) for t in arg]}
     if kind == "c2t":
         cl = case["classes"]
+        # the SAME token / class-string objects go into every call (a history of two global and two
+        # local calls); every result is copied at once, the arguments are read back at the end
+        tokens = list(case["tokens"])
         arg = "".join(cl) if case.get("as_str") else list(cl)
-        out = sc.class2tokens(list(case["tokens"]), arg, gap_char=case["gap"])
-        outl = sc.class2tokens(list(case["tokens"]), (list(case["pre"]), arg, list(case["suf"])),
-                               gap_char=case["gap"], local=True)
-        return {"out": [str(t) for t in out], "outl": [str(t) for t in outl]}
+        pre, suf = list(case["pre"]), list(case["suf"])
+        out = [str(t) for t in sc.class2tokens(tokens, arg, gap_char=case["gap"])]
+        outl = [str(t) for t in sc.class2tokens(tokens, (pre, arg, suf), gap_char=case["gap"], local=True)]
+        out2 = [str(t) for t in sc.class2tokens(tokens, arg, gap_char=case["gap"])]
+        outl2 = [str(t) for t in sc.class2tokens(tokens, (pre, arg, suf), gap_char=case["gap"], local=True)]
+        return {"out": out, "outl": outl, "out2": out2, "outl2": outl2,
+                "after": [str(t) for t in tokens], "classes_after": [str(c) for c in arg]}
     raise AssertionError(kind)
 
 
@@ -221,24 +232,26 @@ def render(case, r):
                                      "; ".join(runs))
     if kind == "t2c":
         tbl = table_ref(case["model"])
-        return "(CT2C %s rc_stress rc_diacs %s %s [%s] %s)" % (
+        return "(CT2C %s rc_stress rc_diacs %s %s [%s] %s %s)" % (
             tbl, b(case["cldf"]), toks(case["toks"]), "; ".join(res(s, cps) for s in r["single"]),
-            res(r["out"], toks))
+            res(r["out"], toks), toks(r["after"]))
     if kind == "pros":
         user = case["user"] or {}
         w = r["weights"]
-        return "(CPros %s %s %s [%s] %s)" % (
+        return "(CPros %s %s %s [%s] %s %s)" % (
             COQ_MODE[case["mode"]], zs(case["l"]), res(r["out"], cps),
             "; ".join("(%d, (%d#%d)%%Q)" % (ord(k), Fraction(v).numerator, Fraction(v).denominator)
                       for k, v in user.items()),
-            "KeyErr" if w is None else res(w, qs))
+            "KeyErr" if w is None else res(w, qs), zs(r["after"]))
     if kind == "prostok":
-        return "(CProsTok sc_%s rc_stress rc_diacs %s %s %s %s)" % (
-            case["art"], toks(case["toks"]), res(r["cls"], toks), res(r["son"], zs), res(r["out"], cps))
+        return "(CProsTok sc_%s rc_stress rc_diacs %s %s %s %s %s)" % (
+            case["art"], toks(case["toks"]), res(r["cls"], toks), res(r["son"], zs), res(r["out"], cps),
+            toks(r["after"]))
     if kind == "c2t":
-        return "(CC2T %s %s %s %s %s %s %s)" % (
+        return "(CC2T %s %s %s %s %s %s %s %s %s %s %s)" % (
             cps(case["gap"]), toks(case["tokens"]), toks(case["classes"]), toks(r["out"]),
-            toks(case["pre"]), toks(case["suf"]), toks(r["outl"]))
+            toks(case["pre"]), toks(case["suf"]), toks(r["outl"]), toks(r["out2"]), toks(r["outl2"]),
+            toks(r["after"]), toks(r["classes_after"]))
     raise AssertionError(kind)
 
 
